@@ -2,15 +2,43 @@
 from props import common, l1common
 
 ID = "C03"
+NEEDS_BINARY = True
 TRUSTED_BASE = common.BASE_TRUSTED + [
     "C03: 'removed lines' of a hunk = the lines between its outer contexts (inner context is indistinguishable from an equal removed+added line), DESIGN.md section 9",
 ]
 
 
 def run(ctx):
+    saved_files(ctx)
     l1common.run(ctx, ID, l1common.oracle_c03,
                  "Oracle: extracted rewrite_ok (streaming copy of the original with each applied hunk's changed "
                  "region replaced, regions sorted/separated/in range) on the implementation's content and reports.")
+
+
+def saved_files(ctx):
+    """the statement down to the bytes on disk: a push of patches for files of a few thousand lines leaves exactly the
+    model's files (every line that was not marked is still there - also the 1025th and the last)"""
+    from props import l3common, l3gen, ws
+    rng = ctx.rng
+    cases = []
+    for n, width in ((1030, 3), (2500, 0), (4100, 2)):
+        lines = [b"line %d\n" % i for i in range(n)]
+        patches, series = {}, b""
+        cur = list(lines)
+        for k, at in enumerate(sorted(rng.sample(range(5, n - 5), 3))):
+            lo, hi = max(0, at - width), min(n, at + width + 1)
+            body = b"".join(b" " + l for l in cur[lo:at]) + b"-" + cur[at] + b"+changed %d\n" % k + b"".join(b" " + l for l in cur[at + 1:hi])
+            patches[b"big%d.patch" % k] = b"--- a/big.txt\n+++ b/big.txt\n@@ -%d,%d +%d,%d @@\n" % (lo + 1, hi - lo, lo + 1, hi - lo) + body
+            series += b"big%d.patch\n" % k
+            cur[at] = b"changed %d\n" % k
+        w = {"files": {b"big.txt": (b"".join(lines), 0o644)}, "dirs": [], "applied": None, "series": series, "patches": patches}
+        for th in (1, 2):
+            cfg = l3gen.default_cfg()
+            cfg["threads"] = th
+            cfg["backup"] = "A"
+            cases.append((w, cfg))
+    l3common.compare(ctx, cases, "files of 1000-4000 lines through the binary")
+    ws.cleanup_all()
 
 
 def replay(ctx, payload):
